@@ -138,29 +138,25 @@ theorem no_parking_unlocked_fails :
 theorem traceF19_refused : refusedAt request2reply true traceF19 = some 10 := by
   decide +kernel
 
-/-! ## disconnect_releases_all (statement only) -/
+/-! ## disconnect_releases_all -/
 
 section
 variable {α : Type} [DecidableEq α]
 
-/-- the actions of one `disconnect()` that runs alone: flag, drain `txq`, pop `active_requests`, drain `pending`,
-setting every event on the way -/
-def drainLabels (s : St α) : List (Label α) :=
-  .closeBegin :: (s.txq.flatMap (fun e => [.closeTxq, .closeSet e.id])
-    ++ (s.active.flatMap (fun p => [.closeActive, .closeSet p.2.id])
-    ++ s.pending.flatMap (fun e => [.closePending, .closeSet e.id])))
-
-/-- From every reachable state in which the tx thread does not hold the lock and no other `disconnect` is half way,
-a `disconnect()` can run to its end, and afterwards nothing is queued, filed or parked and every request that was has
-its event set.  NOT PROVED (kept as the statement); the monitors check `notReleased` on every recorded run. -/
-def disconnect_releases_all_statement (tbl : List (α × α)) : Prop :=
-  ∀ s : St α, Reachable tbl true s → s.txTest = none → s.relHold = [] →
+/-- From every reachable state in which the tx thread does not hold the request lock and no other `disconnect` is half
+way, a `disconnect()` that runs alone (`drainLabels`: flag, drain `txq`, pop every item of `active_requests`, drain
+`pending`, set every event) can run to its end — every one of its actions is enabled in turn — and afterwards nothing
+is queued, filed or parked and every request that was has its event set.  Interleavings of several concurrent
+`disconnect`s with running workers are covered by the monitors (`notReleased`), not by this theorem. -/
+theorem disconnect_releases_all (tbl : List (α × α)) (s : St α) (_h : Reachable tbl true s)
+    (ht : s.txTest = none) (hr : s.relHold = []) :
     ∃ s', run tbl true s (drainLabels s) 0 = .ok s' ∧
-      AllReleased s' ((s.txq ++ s.active.map (·.2) ++ s.pending).map (·.id))
+      AllReleased s' ((s.txq ++ s.active.map (·.2) ++ s.pending).map (·.id)) :=
+  drain_all s ht hr
 
 end
 
-/-- the statement holds on a concrete reachable state: one request filed and transmitted, one parked, one queued -/
+/-- non-vacuity: a concrete reachable state with one request filed and transmitted, one parked, one queued -/
 example : checkRun request2reply true
     [.put (rd "m:p"), .put (rd "m:p"), .put (rd "m:q"), .txGet, .txTest false, .txApply, .txSend, .txGet, .txTest true, .txApply]
     (fun s => match run request2reply true s (drainLabels s) 0 with
